@@ -1,4 +1,4 @@
-// CONFIGS: back back11 backmp11
+// CONFIGS: back back11 backmp11 backmp11_ct
 // family `defer` (C05): deferring states, re-offer in arrival order after the configuration changes, exactly once, across the
 // wrap of the sequence counters (k filler events), deferral in one of two regions (deferred for all), Defer action row.
 #include "common.hpp"
